@@ -2,6 +2,9 @@
   C08 — conversions among graph, stabilizer and density-matrix forms preserve the state.
 -/
 import GraphiqModel.Proofs.Convert
+import GraphiqModel.Proofs.StateToGraph
+import GraphiqModel.Proofs.StateToGraphRoundTrip
+import GraphiqModel.Proofs.GraphStateGroup
 namespace Graphiq.C08
 open Graphiq Graphiq.PRow Graphiq.Tab Graphiq.STab
 
@@ -30,12 +33,131 @@ theorem state_to_graph_validator_sound (t : STab) (gates : List Gate) (adj : Nat
   have s := checkConversion_sound t gates adj h
   exact ⟨s.n_eq, fun p => ⟨s.sub p, s.sup p⟩⟩
 
+/-! ### the modelled `state_to_graph` / `stabilizer_to_graph` (Model/StateToGraph.lean) -/
+
+/-- an in-range single-qubit gate passes the bounds test of the validator -/
+theorem wf_inBounds (n : Nat) (g : Gate) (h : g.WF n) : g.inBounds n = true := by
+  cases g <;> simp_all [Gate.WF, Gate.inBounds]
+
+/-- **`state_to_graph` is sound** (every n, every input tableau, every candidate GF(2) inverse `inv` — whatever the floating-point
+    `det · inv % 2` of `_graph_finder` evaluates to): whenever the modelled `state_to_graph` returns `(graph, gates)`, the graph is
+    simple, the gates are in range, and running them on the input tableau gives a tableau that generates exactly — signs
+    included — the signed group of the graph state.  This is the conclusion of `state_to_graph_validator_sound`, now as a theorem
+    about the modelled code (`row_reduction`, `_position_finder`, `hadamard_transform`, the two closing assertions of
+    `_graph_finder`, `canonical_form`, `_phase_correction`), not a per-output check.
+    Hypothesis `hreal`: the rows carry no i-phase — `StabilizerTableau` has no such field (the model's `ip` is constantly `false`). -/
+theorem state_to_graph_sound (inv : Nat → Adj → Option Adj) (t : STab)
+    (hreal : ∀ i, i < t.n → (t.row i).ip = false) (adj : BMat) (gates : List Gate)
+    (h : S2G.stateToGraphWith inv t = .ok (adj, gates)) :
+    ((t.runCircuit gates).n = t.n ∧ ∀ p, (t.runCircuit gates).Spn p ↔ (graphSTab t.n adj.f).Spn p) ∧
+    gates.all (Gate.inBounds t.n) = true ∧
+    (∀ i j, i < t.n → j < t.n → adj.f i j = adj.f j i) ∧ (∀ i, i < t.n → adj.f i i = false) := by
+  obtain ⟨wf, s, hsym, hirr⟩ := stateToGraphWith_sound inv t hreal adj gates h
+  refine ⟨⟨s.n_eq, fun p => ⟨s.sub p, s.sup p⟩⟩, ?_, hsym, hirr⟩
+  rw [List.all_eq_true]
+  exact fun g hg => wf_inBounds t.n g (wf g hg)
+
+/-- the instance for the executable model (exact GF(2) elimination), which is the one compared with the Python on every input -/
+theorem state_to_graph_exact_sound (t : STab) (hreal : ∀ i, i < t.n → (t.row i).ip = false) (adj : BMat)
+    (gates : List Gate) (h : S2G.stateToGraph t = .ok (adj, gates)) :
+    (t.runCircuit gates).n = t.n ∧ ∀ p, (t.runCircuit gates).Spn p ↔ (graphSTab t.n adj.f).Spn p :=
+  (state_to_graph_sound S2G.gf2InvF t hreal adj gates h).1
+
+/-- **`stabilizer_to_graph(validate=True)` is sound** (every n, every input): a returned graph is simple and its graph state is
+    the input state (same signed group) -/
+theorem stabilizer_to_graph_sound (t : STab) (hreal : ∀ i, i < t.n → (t.row i).ip = false) (adj : BMat)
+    (h : S2G.stabilizerToGraph t = .ok adj) :
+    (∀ p, t.Spn p ↔ (graphSTab t.n adj.f).Spn p) ∧
+    (∀ i j, i < t.n → j < t.n → adj.f i j = adj.f j i) ∧ (∀ i, i < t.n → adj.f i i = false) := by
+  obtain ⟨s, hsym, hirr⟩ := stabilizerToGraph_sound t hreal adj h
+  exact ⟨fun p => ⟨s.sub p, s.sup p⟩, hsym, hirr⟩
+
+/-- a returned result means the input was a valid stabilizer state (real, mutually commuting generators): the conversion never
+    "succeeds" on a table that is not a state -/
+theorem state_to_graph_input_is_state (inv : Nat → Adj → Option Adj) (t : STab)
+    (hreal : ∀ i, i < t.n → (t.row i).ip = false) (r : BMat × List Gate)
+    (h : S2G.stateToGraphWith inv t = .ok r) : t.Good := by
+  unfold S2G.stateToGraphWith at h
+  split at h
+  · cases h
+  · next g hg => exact (afterLC_of_spec t hreal g (S2G.graphFinderWith_spec inv _ g hg)).good
+
+/-- non-vacuity: the Bell state `⟨XX, −ZZ⟩` is converted (one Hadamard, one sign-fixing `Z`) to the graph `0 – 1` -/
+def bellMinus : STab :=
+  { n := 2, row := fun i => if i = 0 then ⟨fun j => decide (j < 2), fun _ => false, false, false⟩
+                            else ⟨fun _ => false, fun j => decide (j < 2), true, false⟩ }
+example : ∀ i, i < bellMinus.n → (bellMinus.row i).ip = false := by
+  intro i _; show (if i = 0 then _ else _ : PRow).ip = false; split <;> rfl
+set_option maxRecDepth 100000 in
+example : (match S2G.stateToGraph bellMinus with
+    | .ok (adj, gates) => adj.bits == "0110" && gates == [Gate.H 1, Gate.Z 1]
+    | .error _ => false) = true := by decide +kernel
+/-- and the known finding D40 is part of the model: the one-qubit `|0⟩` is rejected (`_position_finder` proposes no Hadamard) -/
+example : (match S2G.stateToGraph (STab.zero 1) with | .ok _ => false | .error e => e == Err.assertion) = true := by
+  decide +kernel
+
+/-! ### graph states: the round trip, the tableau is a state, both constructions give the same state -/
+
+/-- the triangle graph -/
+def tri : Nat → Nat → Bool := fun i j => i != j && i < 3 && j < 3
+
+/-- **graph → stabilizer → graph** (every n ≥ 1, every simple graph): the modelled `state_to_graph` applied to
+    `graph_to_stabilizer(G)` returns `G` itself and an EMPTY gate list (so the gates are trivially the identity on the state),
+    and `stabilizer_to_graph(validate=True)` returns `G` -/
+theorem graph_round_trip (n : Nat) (hn : 0 < n) (adj : Adj) (hsym : ∀ i j, i < n → j < n → adj i j = adj j i)
+    (hirr : ∀ i, i < n → adj i i = false) :
+    (∃ g, S2G.stateToGraph (graphSTab n adj) = .ok (g, []) ∧ ∀ i j, i < n → j < n → g.f i j = adj i j) ∧
+    (∃ g, S2G.stabilizerToGraph (graphSTab n adj) = .ok g ∧ ∀ i j, i < n → j < n → g.f i j = adj i j) :=
+  ⟨stateToGraph_graph n hn adj hsym hirr, stabilizerToGraph_graph n hn adj hsym hirr⟩
+
+/-- **`graph_to_stabilizer(G)` is a stabilizer state** (every n, every symmetric `adj`): the generators are real and commute
+    (`Good`), they are independent (an ordered product of distinct generators has trivial X part only if it is the empty
+    product — and every group element is such a product), and `−I` (or `±iI`) is not in the group: the only element with trivial
+    Pauli part is `+I` -/
+theorem graph_tableau_is_state (n : Nat) (adj : Adj) (hsym : ∀ i j, i < n → j < n → adj i j = adj j i) :
+    (graphSTab n adj).Good ∧
+    (∀ p, (graphSTab n adj).Spn p → ∃ c : Nat → Bool, EqOn n p (prodTo (graphSTab n adj) c n)) ∧
+    (∀ c : Nat → Bool, (∀ j, j < n → (prodTo (graphSTab n adj) c n).x j = false) → ∀ i, i < n → c i = false) ∧
+    (∀ p, (graphSTab n adj).Spn p → (∀ j, j < n → p.x j = false) → EqOn n p PRow.one) :=
+  ⟨graphSTab_good n adj hsym, fun p hp => spn_normal_form (graphSTab n adj) (graphSTab_good n adj hsym) p hp,
+   graphSTab_independent n adj, fun p hp hx => graphSTab_no_minus_one n adj hsym p hp hx⟩
+
+/-- **graph → density and graph → stabilizer denote the same state** (every n, every edge list with distinct endpoints whose
+    parity matrix is `adj` — for a simple graph: its edge list): |+…+⟩ followed by one CZ per edge generates exactly the signed
+    group of the tableau `[I | adj]` -/
+theorem graph_to_density_same_state_as_graph_to_stabilizer (n : Nat) (adj : Adj) (edges : List (Nat × Nat))
+    (hne : ∀ e, e ∈ edges → e.1 ≠ e.2) (hA : ∀ i j, i < n → j < n → adj i j = edgeParity edges i j) :
+    (czEdges (plusSTab n) edges).n = n ∧
+    ∀ p, (czEdges (plusSTab n) edges).Spn p ↔ (graphSTab n adj).Spn p := by
+  have s := czEdges_spanEq_graphSTab n adj edges hne hA
+  exact ⟨s.n_eq, fun p => ⟨s.sub p, s.sup p⟩⟩
+
+/-- in particular **for every simple graph** with its edge list `list(graph.edges)` (each edge once, `u < v`): graph → density and
+    graph → stabilizer denote the same state -/
+theorem graph_to_density_same_state_simple_graph (n : Nat) (adj : Adj) (hsym : ∀ i j, i < n → j < n → adj i j = adj j i)
+    (hirr : ∀ i, i < n → adj i i = false) :
+    ∀ p, (czEdges (plusSTab n) (S2G.edgesOf n adj)).Spn p ↔ (graphSTab n adj).Spn p := by
+  have s := czEdges_edgesOf_spanEq n adj hsym hirr
+  exact fun p => ⟨s.sub p, s.sup p⟩
+
+example : S2G.edgesOf 3 tri = [(0, 1), (0, 2), (1, 2)] := by decide
+
+/-- non-vacuity: the triangle with its three edges -/
+example : (∀ i j, i < 3 → j < 3 → tri i j = tri j i) ∧ (∀ i, i < 3 → tri i i = false) ∧
+    (∀ e, e ∈ [(0, 1), (1, 2), (0, 2)] → e.1 ≠ e.2) ∧
+    (∀ i j, i < 3 → j < 3 → tri i j = edgeParity [(0, 1), (1, 2), (0, 2)] i j) := by
+  refine ⟨fun i j hi hj => ?_, by decide, by decide, fun i j hi hj => ?_⟩ <;>
+    (have h1 : i = 0 ∨ i = 1 ∨ i = 2 := by omega
+     have h2 : j = 0 ∨ j = 1 ∨ j = 2 := by omega
+     rcases h1 with rfl | rfl | rfl <;> rcases h2 with rfl | rfl | rfl <;> decide)
+
 /- Not theorems of this development (kept visible): (1) `state_to_graph` succeeds on every stabilizer state — false on the current
-   code (known finding D40: the Hadamard-position heuristic `_position_finder` fails, e.g. on the one-qubit |0⟩); (2) the
-   density-matrix side (negativity-based edge detection, float `det·inv` GF(2) inverses) — compared numerically per input. -/
+   code (known finding D40: the Hadamard-position heuristic `_position_finder` fails, e.g. on the one-qubit |0⟩, refuted above;
+   known finding D49: the float determinant is truncated); (2) the density-matrix side (negativity-based edge detection) —
+   compared numerically per input; (3) that the Python's float `det·inv % 2` equals the exact GF(2) inverse — not needed for
+   soundness (`state_to_graph_sound` quantifies over every candidate inverse), compared per input by the harness. -/
 
 /-! ### Non-vacuity: the triangle graph through both constructions -/
-def tri : Nat → Nat → Bool := fun i j => i != j && i < 3 && j < 3
 example : (List.range 3).all (fun i => (List.range 3).all fun j =>
     ((czEdges (plusSTab 3) [(0, 1), (1, 2), (0, 2)]).row i).z j == ((graphSTab 3 tri).row i).z j) = true := by decide
 example : checkConversion (graphSTab 3 tri) [] tri = true := by decide +kernel
